@@ -33,6 +33,131 @@ check_cycle log_params format_many decorator
 
 MAX_HELPER_STMTS = 40
 
+# every function / class name of the pinned tree: a def whose name is not in this table was introduced by the change under
+# analysis (an extracted helper), whatever its spelling - it may be inlined like a private helper
+BASELINE_DEF_NAMES = frozenset('''
+BaseCache Cache CacheDefault CacheError ForkProcessRunner ForkRunnerBackend FsspecStorage Future FutureState
+FutureStateError Lab LabError LabtechError LabtechPlugin LocalStorage LoggerFileProxy MultilineDisplay
+NotebookMultilineDisplay NullCache NullStorage OrderedSet PickleCache ProcessEndEvent ProcessEvent ProcessExecutor
+ProcessMonitor ProcessRunner ProcessStartEvent ResultMeta ResultsMap Runner RunnerBackend RunnerError RunnerMemory
+SerialRunner SerialRunnerBackend SerializationError Serializer SpawnProcessRunner SpawnRunnerBackend Storage
+StorageError Task TaskCoordinator TaskDiedError TaskError TaskInfo TaskMonitor TaskNotFound TaskRelInfo TaskRelKey
+TaskResult TaskState TaskStructure TaskSubmission TerminalMultilineDisplay __add__ __contains__ __eq__ __getitem__
+__hash__ __init__ __iter__ __len__ __repr__ __str__ _consume _consume_log_queue _consume_monitor_queue
+_consume_result_queue _fork_subprocess_func _get_mp_context _get_process_info _key_to_path _set_result_meta
+_set_results_map _start_processes _submit_task _subprocess_func _subprocess_target _task__getstate__ _task__setstate__
+_task_filter_context_default _task_post_init _task_result _task_set_context _task_set_result_meta
+_task_set_results_map _top_task_lines add add_relationship add_task_type build build_result_meta build_runner
+build_task_diagram cache_key cached_tasks cancel cancelled check_cycle check_cyclic_dependences check_task_types
+check_tasks close complete_task decorator delete deserialize_class deserialize_enum deserialize_task deserialize_value
+diagram_task_relationship diagram_task_structure diagram_task_type display_task_diagram done ensure_dict_key_str
+exists file_handle filter_context find_keys find_tasks_in_param flush format_many format_type fs_constructor get
+get_class_decorator_hook get_direct_dependencies get_direct_dependency_instances get_info_formatted get_info_value
+get_logger get_pbar get_process_info get_process_infos get_ready_tasks get_result get_task_infos handle_failure
+immutable_param_value insert_task is_cached is_ipython is_serialized_enum is_serialized_task is_task is_task_type
+load_cache_timestamp load_metadata load_result load_result_with_meta load_task log_params optional_mlflow
+pending_task_count plugin process_completed_tasks process_tasks remove remove_results result run run_or_load_task
+run_task run_tasks save save_result serialize_class serialize_enum serialize_task serialize_value set_context
+set_exception set_result show split_done_futures start_task stop submit submit_task task task_tag_callback tqdm
+tqdm_notebook uncache_tasks update use_cache validate_file_path_key wait write
+'''.split())
+
+# structure digests (def_shape) of every function of the pinned tree: a function that was only renamed is not 'new'
+BASELINE_DEF_SHAPES = frozenset('''
+002cd47e62 0230e5e9f7 0387cb38fd 07eb3196fe 095146ecea 0aa307caa8 0aebbf8a39 0fef6aa06f 0ff6aea594 11a2d79bb6
+120554f265 122b0d9146 1255f6ed7c 13653e8ec9 1422bb1d37 1596e9b34b 16091db0f2 165adfe45a 1750e5050f 18b537841c
+1e624d5462 203f31311d 23a6ddbb8e 26a830940f 2986bcc8e2 2a63b4357f 2ba030aa04 2c21a5f4e6 2c65dc722e 30ad49e36d
+30e124a98c 31463b1b8c 31bf5ca091 31f177a7b4 327d02016b 32b2a2d2f2 34d4093a5f 34e3a698ee 3574bacc2a 35f4a4b3a8
+373a62ed10 39726dafd4 3986fa0c2d 39fabaacce 3bdcc02b8a 3d140baf48 3dfd4c694c 3e422e8821 40b33e4b72 44c40760c8
+47fed4aa9c 48875001e8 4994f38666 4a83d48248 4b98fbf8ae 4c1e91e3c5 4c36bb9998 4f848b73ac 4fb513fa83 517fc3b86f
+54990fa268 563db4dbac 5665f30b7a 5b08a82bf9 5c224a3562 5e91154490 60caad434f 616a706d33 62c8236277 6353af83cf
+6400eff89f 646a0a91f4 6736771860 69860bb9cb 6a53143eee 6a6fc712e4 6aa00705f9 740364178b 74ec3983f8 7723182d7c
+77a75bda37 77edd41e84 78972aad0c 78a751c04c 795e42ccd9 7ac4f702e5 7cb6c8f6bc 7e30522294 80027d1e39 81387dd956
+8328757a33 8378024c36 83f66632b4 8593775f6b 874a0ac733 883b0219b2 8a10b9fb96 8a51760bce 8aedbb7980 8fec740bfd
+909ac59845 92041c8dfd 9223304aad 94cf90ad34 9518909122 9607d654f7 96c3166fb3 9c8a7d9337 9da81b8e6c 9e8000b90b
+a0048a7d18 a3d3f8fddc a51329fb03 a904d6bcd3 aad872eb16 ad4c1cce9c b59f1599b5 b5e3ac9fbf b764525f04 b78c64f442
+b87e909208 ba883d1535 bbf78c658d bda7e6ea99 be49cbd517 bf15913ad1 bfc8b01df3 bfe0178127 c26712bdaf c2cfc2493d
+c303cf525f c31a8eaefd c380e01ff8 cccae25707 cce11449c1 cf2ff2aa84 d040da744d d0451c57ba d0cf142027 d2c4c80cc3
+d51c0f3b41 d6d16d95c8 d6e787f39f d97b15122a d9e7943b66 dc8e20bf1e dd69efec61 dff3fcd41c e04148cbc3 e1262f50dc
+e30f3a576f e41df88f53 e43c44864f e74372bb9b e7be343a38 e9564a6555 e998c78b0a eb0915b733 ec6550bdd3 efad34af15
+f0b264d847 f0c5ad47d6 f12f60117d f177bc69af f34edd6251 f45bb0ae02 f5f0901b5f f64b681bf4 faad925d04 fac55b52e8
+fc61446535 fc8d9f5c3f fce7ce22ff fd86cd349e ff33afd631
+'''.split())
+
+def def_shape(fn_node: ast.AST) -> str:
+    """Digest of a function's structure with every identifier masked and docstrings / annotations dropped: a renamed function
+    (with renamed locals and attributes) keeps its shape, an extracted fragment has a shape of its own."""
+    import copy as _copy
+    import hashlib as _hashlib
+    n = _copy.deepcopy(fn_node)
+
+    class M(ast.NodeTransformer):
+        def visit_Name(self, x):
+            return ast.Name(id='_', ctx=x.ctx)
+
+        def visit_arg(self, x):
+            return ast.arg(arg='_', annotation=None)
+
+        def visit_Attribute(self, x):
+            self.generic_visit(x)
+            return ast.Attribute(value=x.value, attr='_', ctx=x.ctx)
+
+        def visit_keyword(self, x):
+            self.generic_visit(x)
+            return ast.keyword(arg='_' if x.arg else None, value=x.value)
+
+        def visit_AnnAssign(self, x):
+            self.generic_visit(x)
+            if x.value is None:
+                return None
+            return ast.Assign(targets=[x.target], value=x.value)
+
+        def visit_FunctionDef(self, x):
+            x.name = '_'
+            x.returns = None
+            x.decorator_list = []
+            x.body = [s for s in x.body if not (isinstance(s, ast.Expr) and isinstance(s.value, ast.Constant) and isinstance(s.value.value, str))] or [ast.Pass()]
+            self.generic_visit(x)
+            return x
+
+        def visit_ExceptHandler(self, x):
+            self.generic_visit(x)
+            x.name = '_' if x.name else None
+            return x
+    n = M().visit(n)
+    return _hashlib.sha1(ast.dump(n, annotate_fields=False, include_attributes=False).encode()).hexdigest()[:10]
+
+
+# every local / parameter name of the pinned tree: a local whose name is not in this table was introduced by the change under
+# analysis (a named intermediate); P16 folds such single-use intermediates back into the statement that consumes them
+BASELINE_LOCAL_NAMES = frozenset('''
+CACHE_DEFAULT CANCELLED CovariantResultT FINISHED KEY_PREFIX LabContext METADATA_FILENAME PENDING ParamScalar
+RESULT_FILENAME ResultT T TaskMonitorInfo TaskMonitorInfoItem TaskMonitorInfoValue TaskT _ _RESERVED_ATTRS
+_RUNNER_FORK_MEMORY __all__ __version__ _ex _is_task _lt _result _results_map _state _subprocess_func active_tasks
+align all_dependencies arg_t args args_str buf bust_cache cache cache_key char child children classes cls cls_fields
+cls_fullname cls_module cls_name combined consumer_thread context context_type continue_on_failure coordinator
+covariant_result_t_type cpu_percent ctx current_process data_file dead_process_futures default_logger_handler
+dependencies dependency dependency_task dependency_tasks dependent deserialized_value diagram dict_key dict_value
+direction disable_progress disable_top disallowed_key_chars done done_futures duration duration_seconds end entry
+enum_cls event ex exception_type executor f field field_set field_value file_path filename filtered_context
+first_keyboard_interrupt fn found_tasks from_param_name from_task_type fs fullname future future_id
+future_process_pairs futures futures_to_start gitignore_file gitignore_path hashed i id indentation info
+inner_timeout_seconds is_scalar item items items_repr items_str jsonable key key_path keys kwargs lab lab_error
+left_align line line_count lines log_queue logger logger_func max_len max_parallel max_workers memory_rss_percent
+memory_vms_percent message meta metadata metadata_file mlflow_run mode module monitor_interval mp_context msg
+multi_cardinality name next_task_submission not_done_futures notebook obj old_info orig_post_init orig_process_name
+origin other param_value params parents path pbar pbar_func pbars pending_futures pickle_protocol pid post_init prefix
+process process_event_queue process_info process_infos ready_tasks record redirected_loggers rel_info rel_key
+relationships rels res reserved_attr result result_meta result_or_ex result_queue results results_map results_map_type
+run_func run_return run_return_type runner runner_backend runner_memory searched_coll_ids self serialized
+serialized_class serialized_field serialized_str serializer start start_count start_datetime start_event start_methods
+start_timestamp state status storage storage_dir storage_path sub_task sub_tasks t task task_cls task_count task_info
+task_info_item task_infos task_instance task_makers task_monitor task_name task_number task_result task_results
+task_structure task_submission task_type task_type_count task_type_counts task_type_max_digits task_type_to_task_count
+task_types tasks tasks_with_removable_results threads thunk timeout_seconds to_task_type top_format top_n top_sort
+top_task_lines use_cache uuid value version visited whitespace_only_re with_gitignore
+'''.split())
+
 
 # ----------------------------------------------------------------------------------------
 # small AST utilities
@@ -162,7 +287,33 @@ def _helper_ok(h: ast.FunctionDef, decorators: list[str]) -> Optional[str]:
             return None     # recursive
         if isinstance(n, ast.Call) and isinstance(n.func, ast.Attribute) and n.func.attr == h.name:
             return None
+    if h.name.startswith('_') or h.name not in BASELINE_DEF_NAMES:
+        if fold_new_intermediates(h):
+            body = [s for s in h.body if not (isinstance(s, ast.Expr) and isinstance(s.value, ast.Constant))]
     rets = [n for n in walk_local(h) if isinstance(n, ast.Return)]
+    if len(rets) > 1 and h.name not in KNOWN_HELPERS and (h.name.startswith('_') or h.name not in BASELINE_DEF_NAMES):
+        # a decision helper (`if a: return X` / `if b: return Y` / `return Z`) is given a single exit: every return becomes an
+        # assignment to one result name on its own path, followed by one final return
+        conv = _single_exit(body, '_result__' + h.name.strip('_'))
+        if conv is not None:
+            doc = [x for x in h.body if isinstance(x, ast.Expr) and isinstance(x.value, ast.Constant)]
+            h.body[:] = doc + conv
+            for x in conv:
+                ast.copy_location(x, h)
+                ast.fix_missing_locations(x)
+            body = conv
+            rets = [n for n in walk_local(h) if isinstance(n, ast.Return)]
+    if len(body) == 2 and h.name not in BASELINE_DEF_NAMES and isinstance(body[0], ast.Assign) and len(body[0].targets) == 1 \
+            and isinstance(body[0].targets[0], ast.Name) and isinstance(body[1], ast.Return) and body[1].value is not None:
+        # `t = E; return G(t)` with t used once and nothing evaluated before it: the same as `return G(E)`
+        t = body[0].targets[0].id
+        uses = [x for x in ast.walk(body[1].value) if isinstance(x, ast.Name) and x.id == t]
+        calls_ok = all(any(y is uses[0] for y in ast.walk(c)) for c in ast.walk(body[1].value) if isinstance(c, ast.Call)) if len(uses) == 1 else False
+        nested = any(isinstance(x, (ast.Lambda, ast.ListComp, ast.SetComp, ast.DictComp, ast.GeneratorExp)) for x in ast.walk(body[1].value))
+        if len(uses) == 1 and calls_ok and not nested and not isinstance(body[1].value, (ast.BoolOp, ast.IfExp)):
+            body[1].value = _Subst({t: body[0].value}).visit(body[1].value)
+            h.body[:] = [x for x in h.body if x is not body[0]]
+            return 'expr'
     if len(body) == 1 and isinstance(body[0], ast.Return) and body[0].value is not None:
         return 'expr'
     if not rets:
@@ -170,6 +321,41 @@ def _helper_ok(h: ast.FunctionDef, decorators: list[str]) -> Optional[str]:
     if len(rets) == 1 and rets[0] is body[-1]:
         return 'stmts'
     return None
+
+
+def _single_exit(stmts: list[ast.stmt], rname: str) -> Optional[list[ast.stmt]]:
+    def conv(ss: list[ast.stmt]) -> Optional[list[ast.stmt]]:
+        if not ss:
+            return None
+        s0 = ss[0]
+        if isinstance(s0, ast.Return):
+            if len(ss) != 1 or s0.value is None:
+                return None
+            return [ast.Assign(targets=[ast.Name(id=rname, ctx=ast.Store())], value=s0.value)]
+        if isinstance(s0, ast.If) and any(isinstance(x, ast.Return) for x in ast.walk(s0)):
+            b = conv(s0.body)
+            if b is None:
+                return None
+            if s0.orelse:
+                if len(ss) != 1:
+                    return None
+                o = conv(s0.orelse)
+            else:
+                o = conv(ss[1:])
+            if o is None:
+                return None
+            return [ast.If(test=s0.test, body=b, orelse=o)]
+        if not isinstance(s0, (ast.FunctionDef, ast.AsyncFunctionDef, ast.ClassDef)) and not any(isinstance(x, ast.Return) for x in ast.walk(s0)):
+            # a statement that cannot return (an assignment, a call, a guard that raises, a loop without return): passed through
+            if isinstance(s0, ast.Raise):
+                return [s0] if len(ss) == 1 else None
+            r = conv(ss[1:])
+            return None if r is None else [s0] + r
+        return None
+    c = conv(stmts)
+    if c is None:
+        return None
+    return c + [ast.Return(value=ast.Name(id=rname, ctx=ast.Load()))]
 
 
 class _Inliner:
@@ -182,6 +368,7 @@ class _Inliner:
         self._sites: dict[str, int] = {}
 
     def run(self) -> None:
+        self._orig_nodes = {q: copy.deepcopy(f.node) for q, f in self.P.funcs.items()}
         for _round in range(2):
             changed = False
             for fn in list(self.P.funcs.values()):
@@ -232,8 +419,10 @@ class _Inliner:
             recv = call.func.value
         else:
             return None
-        if not (name.startswith('_') or self._is_local_closure(name, fn)) or name.startswith('__'):
+        new_name = name not in BASELINE_DEF_NAMES
+        if not (name.startswith('_') or self._is_local_closure(name, fn) or new_name) or name.startswith('__'):
             return None
+        renamed_only = False      # decided below, once the helper is known
         cs = self.P.resolve_call(call, fn, by_name=False)
         cs = [q for q in cs if not q.startswith('?')]
         if not cs and recv is not None:
@@ -244,28 +433,102 @@ class _Inliner:
         if len(cs) != 1 or cs[0] not in self.P.funcs:
             return None
         h = self.P.funcs[cs[0]]
-        if h.qualname == fn.qualname or h.module.name != fn.module.name:
+        if h.qualname == fn.qualname:
             return None
-        shape = _helper_ok(h.node, h.decorators)
+        if new_name and self._shape(h) in BASELINE_DEF_SHAPES:
+            # a pinned function under a new name (rename refactoring): it keeps its role, it is not an extracted fragment
+            new_name = False
+            if not (name.startswith('_') or self._is_local_closure(name, fn)):
+                return None
+        if h.module.name != fn.module.name:
+            # a helper shared between modules (extracted into a common module): only a *new* module-level function, and the
+            # global names it reads are made available in the caller's module (see _import_free_names)
+            if not (new_name and h.cls is None and h.parent is None):
+                return None
+        if not hasattr(self, '_norm'):
+            self._norm = {}
+        if h.qualname not in self._norm:
+            hc = copy.deepcopy(h.node)
+            self._norm[h.qualname] = (_helper_ok(hc, h.decorators), hc)
+        shape, hnorm = self._norm[h.qualname]
         if shape is None:
             return None
         # a statement method must be called on the caller's own self (so attribute reads mean the same object); a
         # single-expression method may be called on any plain name (`old._merged_with(new)`): self is substituted by it
         if h.cls is not None and h.parent is None and not h.is_static:
             own = recv is not None and recv.id == (fn.self_name or self._outer_self(fn))
-            if recv is None or (not own and shape != 'expr'):
+            # (another plain local as receiver - `structure._add(x)` inside a classmethod that built `structure` - is substituted
+            # for self the same way; the helper cannot rebind the caller's name)
+            if recv is None or (not own and shape != 'expr' and not new_name):
                 return None
         if shape == 'stmts' and self._call_sites(h) != 1:
             # a helper shared by several call sites is an abstraction of its own (like the executor's top-up
-            # routine); only single-use helpers are "extract method" artefacts
-            return None
+            # routine); only single-use helpers are "extract method" artefacts - except a small *new* function that
+            # removes a duplicated fragment (a handful of statements, a few call sites)
+            nb = len([x for x in h.node.body if not (isinstance(x, ast.Expr) and isinstance(x.value, ast.Constant))])
+            forwarder = nb == 1 and new_name     # a new one-statement wrapper, however often it is used
+            if not (forwarder or (new_name and nb <= 6 and self._call_sites(h) <= 4)):
+                return None
+        if h.module.name != fn.module.name:
+            self._import_free_names(h, fn)
         return h, recv, shape
+
+    def _install_norm(self, h) -> None:
+        """The helper is about to be inlined: from here on use its normalised body (single exit, folded intermediates)."""
+        shape, hnorm = self._norm.get(h.qualname, (None, None))
+        if hnorm is not None and h.node.body is not hnorm.body:
+            h.node.body = hnorm.body
+
+    def _shape(self, h) -> str:
+        if not hasattr(self, '_shapes'):
+            self._shapes = {}
+        if h.qualname not in self._shapes:
+            self._shapes[h.qualname] = getattr(self, 'raw_shapes', {}).get(h.qualname) or def_shape(self._orig_nodes.get(h.qualname, h.node))
+        return self._shapes[h.qualname]
+
+    def _import_free_names(self, h, fn) -> None:
+        """Make the module-level names the helper reads resolvable in the caller's module (the rebuilt Program resolves calls
+        through each module's own imports): copy the helper module's import of the name, or import it from the helper's module."""
+        bound_locally = _names_stored(h.node) | {a.arg for a in h.node.args.posonlyargs + h.node.args.args + h.node.args.kwonlyargs}
+        free = {x.id for x in walk_local(h.node) if isinstance(x, ast.Name) and isinstance(x.ctx, ast.Load)} - bound_locally
+        ctree = fn.module.tree
+        have = set()
+        for st in ctree.body:
+            if isinstance(st, (ast.Import, ast.ImportFrom)):
+                for a in st.names:
+                    have.add((a.asname or a.name).split('.')[0])
+            elif isinstance(st, (ast.FunctionDef, ast.AsyncFunctionDef, ast.ClassDef)):
+                have.add(st.name)
+            elif isinstance(st, ast.Assign):
+                for t in st.targets:
+                    if isinstance(t, ast.Name):
+                        have.add(t.id)
+        import builtins
+        pkg_mod = h.module.name
+        for nm in sorted(free - have):
+            if hasattr(builtins, nm):
+                continue
+            stmt = None
+            for st in h.module.tree.body:
+                if isinstance(st, ast.ImportFrom) and any((a.asname or a.name) == nm for a in st.names):
+                    mod = st.module or ''
+                    if st.level:
+                        base = pkg_mod.split('.')[:-st.level] if not h.module.path.endswith('__init__.py') else pkg_mod.split('.')[:len(pkg_mod.split('.')) - st.level + 1]
+                        mod = '.'.join(base + ([mod] if mod else []))
+                    stmt = ast.ImportFrom(module=mod, names=[a for a in st.names if (a.asname or a.name) == nm], level=0)
+                elif isinstance(st, ast.Import) and any((a.asname or a.name).split('.')[0] == nm for a in st.names):
+                    stmt = ast.Import(names=[a for a in st.names if (a.asname or a.name).split('.')[0] == nm])
+                elif isinstance(st, (ast.FunctionDef, ast.AsyncFunctionDef, ast.ClassDef)) and st.name == nm:
+                    stmt = ast.ImportFrom(module=pkg_mod, names=[ast.alias(name=nm, asname=None)], level=0)
+            if stmt is not None:
+                ast.fix_missing_locations(stmt)
+                ctree.body.insert(0, stmt)
 
     def _call_sites(self, h) -> int:
         if h.qualname not in self._sites:
             n = 0
             for f in self.P.funcs.values():
-                if f.module.name != h.module.name:
+                if f.module.name != h.module.name and not (h.name not in BASELINE_DEF_NAMES and h.cls is None and h.parent is None):
                     continue
                 for c in [x for x in walk_local(f.node) if isinstance(x, ast.Call)]:
                     nm = c.func.id if isinstance(c.func, ast.Name) else (c.func.attr if isinstance(c.func, ast.Attribute) else None)
@@ -388,6 +651,7 @@ class _Inliner:
                 if r is None or r[2] != 'expr':
                     return node
                 h, recv, _shape = r
+                self._install_norm(h)
                 b = self._bind(h, recv, node)
                 if b is None or b[1]:
                     return node
@@ -409,21 +673,33 @@ class _Inliner:
                 kind = None
                 if isinstance(s, ast.Expr) and isinstance(s.value, ast.Call):
                     call, kind = s.value, 'expr'
-                elif isinstance(s, ast.Assign) and len(s.targets) == 1 and isinstance(s.targets[0], (ast.Name, ast.Tuple)) \
-                        and isinstance(s.value, ast.Call):
+                elif isinstance(s, ast.Assign) and len(s.targets) == 1 and isinstance(s.value, ast.Call) \
+                        and (isinstance(s.targets[0], (ast.Name, ast.Tuple))
+                             or (isinstance(s.targets[0], ast.Attribute) and isinstance(s.targets[0].value, ast.Name))):
                     call, kind = s.value, 'assign'
                 elif isinstance(s, ast.AnnAssign) and isinstance(s.target, ast.Name) and isinstance(s.value, ast.Call):
                     call, kind = s.value, 'assign'
                 elif isinstance(s, ast.Return) and isinstance(s.value, ast.Call):
                     call, kind = s.value, 'return'
+                elif isinstance(s, ast.AugAssign) and isinstance(s.target, ast.Name) and isinstance(s.value, ast.Call):
+                    call, kind = s.value, 'augassign'
+                if isinstance(s, ast.Expr) and isinstance(s.value, ast.Call) and dotted(s.value.func) is not None and not s.value.keywords \
+                        and len(s.value.args) == 1 and isinstance(s.value.args[0], ast.Call):
+                    # `sink(helper(...))`: only the (side-effect free) look-up of `sink` precedes the helper call
+                    r0 = self._resolve(s.value.args[0], fn)
+                    if r0 is not None and r0[2] == 'stmts':
+                        call, kind = s.value.args[0], 'arg'
                 if call is None:
                     i += 1
                     continue
                 r = self._resolve(call, fn)
-                if r is None or r[2] != 'stmts':
+                # (an expression helper that the expression pass left alone - an argument needs a temporary - is inlined here,
+                # where the temporary can be a statement of its own)
+                if r is None or r[2] not in ('stmts', 'expr'):
                     i += 1
                     continue
                 h, recv, _shape = r
+                self._install_norm(h)
                 b = self._bind(h, recv, call)
                 if b is None:
                     i += 1
@@ -444,11 +720,22 @@ class _Inliner:
                         new = ast.Return(value=val)
                         ast.copy_location(new, last)
                         tail = [new]
+                    elif kind == 'augassign' and val is not None:
+                        new = ast.AugAssign(target=copy.deepcopy(s.target), op=s.op, value=val)
+                        ast.copy_location(new, last)
+                        tail = [new]
+                    elif kind == 'arg' and val is not None:
+                        new = ast.Expr(value=ast.Call(func=copy.deepcopy(s.value.func), args=[val], keywords=[]))
+                        ast.copy_location(new, last)
+                        tail = [new]
                     elif kind == 'expr' and val is not None:
                         new = ast.Expr(value=val)
                         ast.copy_location(new, last)
                         tail = [new]
                 else:
+                    if kind in ('augassign', 'arg'):
+                        i += 1
+                        continue
                     if kind == 'assign':
                         # helper without return value assigned: x = None
                         tgt = s.targets[0] if isinstance(s, ast.Assign) else s.target
@@ -529,9 +816,19 @@ def propagate_aliases(fn_node: ast.AST) -> int:
                 tgt, val = s.targets[0].id, s.value
             elif isinstance(s, ast.AnnAssign) and isinstance(s.target, ast.Name) and s.value is not None:
                 tgt, val = s.target.id, s.value
+            def _bound_once_before(name: str) -> bool:
+                # the source name is bound exactly once, by a plain assignment earlier in this very block
+                if stores.get(name, 0) != 1 or name in comp_names or name in params:
+                    return False
+                for prev in block[:i]:
+                    if isinstance(prev, ast.Assign) and len(prev.targets) == 1 and isinstance(prev.targets[0], ast.Name) and prev.targets[0].id == name:
+                        return True
+                    if isinstance(prev, ast.AnnAssign) and isinstance(prev.target, ast.Name) and prev.target.id == name and prev.value is not None:
+                        return True
+                return False
             if tgt is None or stores.get(tgt, 0) != 1 or tgt in params or tgt in nested_uses \
                     or not _pure_alias_value(val, allow_subscript=True) or isinstance(val, ast.Constant) \
-                    or (isinstance(val, ast.Name) and (stores.get(val.id, 0) > 0 or val.id in comp_names)):
+                    or (isinstance(val, ast.Name) and ((stores.get(val.id, 0) > 0 and not _bound_once_before(val.id)) or val.id in comp_names)):
                 i += 1
                 continue
             if isinstance(val, ast.Subscript):
@@ -606,6 +903,8 @@ def _empty_container(e: ast.AST) -> Optional[str]:
         d = dotted(e.func)
         if d in ('list', 'dict', 'set'):
             return d
+        if d in ('Counter', 'collections.Counter', 'OrderedDict', 'collections.OrderedDict'):
+            return 'dict:' + d       # `c = Counter(); for …: c[k] = v`  ==  `c = Counter({k: v for …})`
     return None
 
 
@@ -652,6 +951,19 @@ def _loop_to_generators(loop: ast.For, acc: str, kind: str):
     elif kind == 'dict' and isinstance(s, ast.Assign) and len(s.targets) == 1 and isinstance(s.targets[0], ast.Subscript) \
             and isinstance(s.targets[0].value, ast.Name) and s.targets[0].value.id == acc:
         elem = (s.targets[0].slice, s.value)
+    else:
+        # `acc.extend(E)` / `acc += E` (list) / `acc.update(E)` (set): one more generator over E
+        more = None
+        if kind in ('list', 'set') and isinstance(s, ast.Expr) and isinstance(s.value, ast.Call) and isinstance(s.value.func, ast.Attribute) \
+                and s.value.func.attr == ('extend' if kind == 'list' else 'update') and isinstance(s.value.func.value, ast.Name) \
+                and s.value.func.value.id == acc and len(s.value.args) == 1 and not s.value.keywords:
+            more = s.value.args[0]
+        elif kind == 'list' and isinstance(s, ast.AugAssign) and isinstance(s.op, ast.Add) and isinstance(s.target, ast.Name) and s.target.id == acc:
+            more = s.value
+        if more is not None and not isinstance(more, (ast.List, ast.Tuple, ast.Set)):
+            ev = '_each__' + acc
+            gens.append(ast.comprehension(target=ast.Name(id=ev, ctx=ast.Store()), iter=more, ifs=[], is_async=0))
+            elem = ast.Name(id=ev, ctx=ast.Load())
     if elem is None:
         return None
     # acc must not be read inside the loop
@@ -680,6 +992,9 @@ def fold_accumulator_loops(fn_node: ast.AST) -> int:
             if acc is None or kind is None or not isinstance(nxt, ast.For):
                 i += 1
                 continue
+            wrapper = None
+            if kind.startswith('dict:'):
+                kind, wrapper = 'dict', kind[5:]
             r = _loop_to_generators(nxt, acc, kind)
             if r is None:
                 i += 1
@@ -691,6 +1006,9 @@ def fold_accumulator_loops(fn_node: ast.AST) -> int:
                 comp = ast.SetComp(elt=elem, generators=gens)
             else:
                 comp = ast.DictComp(key=elem[0], value=elem[1], generators=gens)
+                if wrapper is not None:
+                    ast.copy_location(comp, nxt)
+                    comp = ast.Call(func=ast.parse(wrapper, mode='eval').body, args=[comp], keywords=[])
             new = ast.Assign(targets=[ast.Name(id=acc, ctx=ast.Store())], value=comp)
             ast.copy_location(new, nxt)
             ast.copy_location(comp, nxt)
@@ -832,11 +1150,14 @@ def canonicalise(sources: dict[str, str]) -> tuple[Program, dict]:
     if pre0.parse_errors:
         return pre0, report
     trees0 = {m.path: m.tree for m in pre0.modules.values()}
+    raw_shapes = {q: def_shape(f.node) for q, f in pre0.funcs.items()}     # before any pass touches the trees
     from . import canon_decl
     report['private_properties_inlined'] = canon_decl.inline_private_properties(trees0)
     report['private_mixins_flattened'] = canon_decl.flatten_private_mixins(trees0)
     report['private_context_managers_desugared'] = canon_decl.desugar_private_context_managers(trees0)
     report['callable_classes_to_closures'] = canon_decl.callable_classes_to_closures(trees0)
+    report['listed_generators_inlined'] = canon_decl.inline_listed_generators(trees0)
+    report['drain_generators_inlined'] = canon_decl.inline_looped_drain_generators(trees0)
     report['search_helpers_inlined'] = canon_decl.inline_search_helpers(trees0)
     report['method_objects_dissolved'] = canon_decl.dissolve_method_objects(trees0)
     report['forwarding_adapters_dropped'] = canon_decl.drop_forwarding_adapters(trees0)
@@ -857,16 +1178,20 @@ def canonicalise(sources: dict[str, str]) -> tuple[Program, dict]:
                 report['partials_to_closures'] += hoist_inline_partials(n)
     pre = Program(sources, trees=trees0)
     inl = _Inliner(pre)
+    inl.raw_shapes = raw_shapes
     inl.run()
     report['inlined_helpers'] = inl.inlined
     trees = {m.path: m.tree for m in pre.modules.values()}
     for tree in trees.values():
         for n in ast.walk(tree):
             if isinstance(n, (ast.FunctionDef, ast.AsyncFunctionDef)):
+                report['nested_fstrings_flattened'] = report.get('nested_fstrings_flattened', 0) + flatten_nested_fstrings(n)
                 report['joined_tails_sunk'] = report.get('joined_tails_sunk', 0) + sink_joined_tails(n)
                 report['hash_updates_folded'] = report.get('hash_updates_folded', 0) + fold_hash_updates(n)
                 report['counter_updates_folded'] = report.get('counter_updates_folded', 0) + fold_counter_updates(n)
                 report['setdefault_forms_folded'] = report.get('setdefault_forms_folded', 0) + fold_setdefault_forms(n)
+                report['new_intermediates_folded'] = report.get('new_intermediates_folded', 0) + fold_new_intermediates(n)
+                report['relay_accumulators_dropped'] = report.get('relay_accumulators_dropped', 0) + drop_relay_accumulators(n)
                 for _ in range(3):
                     a = fold_accumulator_loops(n)
                     b = fold_dict_builders(n)
@@ -876,6 +1201,9 @@ def canonicalise(sources: dict[str, str]) -> tuple[Program, dict]:
                     report['aliases_propagated'] += c
                     if not (a or b or c):
                         break
+                if fold_new_intermediates(n):
+                    report['new_intermediates_folded'] = report.get('new_intermediates_folded', 0) + 1
+                    propagate_aliases(n)
         ast.fix_missing_locations(tree)
     prog = Program(sources, trees=trees)
     prog.canon_report = report
@@ -1331,3 +1659,265 @@ def unwrap_closing_iterators(fn_node: ast.AST) -> int:
     if n:
         ast.fix_missing_locations(fn_node)
     return n
+
+
+# ----------------------------------------------------------------------------------------
+# P16: a new single-use intermediate is folded into the statement that consumes it
+#
+#     cls_name = self.serialize_class(task.__class__)
+#     field_map = {f.name: ... for f in fields(task)}          ->     return {'__class__': self.serialize_class(task.__class__),
+#     return {'__class__': cls_name, **field_map}                             **{f.name: ... for f in fields(task)}}
+#
+# (only names that do not occur in the pinned tree; bound once, read once, in the next non-intermediate statement of the same
+# block; the read is evaluated unconditionally and nothing that can have an effect is evaluated before it there, so the order of
+# evaluation does not change)
+
+_PURE_BUILTINS = frozenset({'id', 'len', 'type', 'isinstance', 'set', 'frozenset', 'tuple', 'list', 'dict', 'bool', 'str', 'int', 'float', 'repr'})
+
+
+def _eval_order(e: ast.AST):
+    """Pre-order walk that follows evaluation order closely enough for displays, calls, operators."""
+    yield e
+    if isinstance(e, ast.Dict):
+        for k, v in zip(e.keys, e.values):
+            if k is not None:
+                yield from _eval_order(k)
+            yield from _eval_order(v)
+        return
+    if isinstance(e, (ast.ListComp, ast.SetComp, ast.GeneratorExp, ast.DictComp)):
+        # the first iterable is evaluated first (and unconditionally), everything else per element
+        yield from _eval_order(e.generators[0].iter)
+        for c in ast.iter_child_nodes(e):
+            if c is e.generators[0]:
+                yield from _eval_order(e.generators[0].target)
+                for i_ in e.generators[0].ifs:
+                    yield from _eval_order(i_)
+            else:
+                yield from _eval_order(c)
+        return
+    for c in ast.iter_child_nodes(e):
+        yield from _eval_order(c)
+
+
+def fold_new_intermediates(fn_node: ast.AST) -> int:
+    count = 0
+    stores: dict[str, int] = {}
+    loads: dict[str, int] = {}
+    nested: set[str] = set()
+    for n in walk_local(fn_node):
+        if isinstance(n, ast.Name):
+            if isinstance(n.ctx, (ast.Store, ast.Del)):
+                stores[n.id] = stores.get(n.id, 0) + 1
+            else:
+                loads[n.id] = loads.get(n.id, 0) + 1
+        if isinstance(n, (ast.FunctionDef, ast.AsyncFunctionDef, ast.Lambda)) and n is not fn_node:
+            for x in ast.walk(n):
+                if isinstance(x, ast.Name):
+                    nested.add(x.id)
+    params = {a.arg for a in fn_node.args.posonlyargs + fn_node.args.args + fn_node.args.kwonlyargs} \
+        if isinstance(fn_node, (ast.FunctionDef, ast.AsyncFunctionDef)) else set()
+    # `x = E` immediately followed by `return x`: the same as `return E`, whatever x is called (x is a local of this function)
+    if isinstance(fn_node, (ast.FunctionDef, ast.AsyncFunctionDef)):
+        declared = {nm for x in walk_local(fn_node) if isinstance(x, (ast.Global, ast.Nonlocal)) for nm in x.names}
+        for owner, fld, block in list(_blocks(fn_node)):
+            if len(block) >= 2 and isinstance(block[-1], ast.Return) and isinstance(block[-1].value, ast.Name):
+                s = block[-2]
+                t = block[-1].value.id
+                val = None
+                if isinstance(s, ast.Assign) and len(s.targets) == 1 and isinstance(s.targets[0], ast.Name) and s.targets[0].id == t:
+                    val = s.value
+                elif isinstance(s, ast.AnnAssign) and isinstance(s.target, ast.Name) and s.target.id == t and s.value is not None:
+                    val = s.value
+                if val is not None and t not in declared and t not in nested \
+                        and not any(isinstance(x, (ast.Yield, ast.YieldFrom, ast.Await)) for x in ast.walk(val)):
+                    block[-1].value = val
+                    del block[-2]
+                    count += 1
+    changed = True
+    while changed:
+        changed = False
+        for owner, fld, block in list(_blocks(fn_node)):
+            for i in range(len(block) - 1):
+                s = block[i]
+                if isinstance(s, ast.Assign) and len(s.targets) == 1 and isinstance(s.targets[0], ast.Name):
+                    t, val = s.targets[0].id, s.value
+                elif isinstance(s, ast.AnnAssign) and isinstance(s.target, ast.Name) and s.value is not None:
+                    t, val = s.target.id, s.value
+                else:
+                    continue
+                if t in BASELINE_LOCAL_NAMES or t in params or t in nested or stores.get(t, 0) != 1 or loads.get(t, 0) != 1:
+                    continue
+                if any(isinstance(x, (ast.Yield, ast.YieldFrom, ast.Await, ast.NamedExpr)) for x in ast.walk(val)):
+                    continue
+                # the consumer is the next statement - or a later one when only effect-free local assignments lie in between (those
+                # can be evaluated before or after `val` alike)
+                j = i + 1
+                val_names = {x.id for x in ast.walk(val) if isinstance(x, ast.Name)}
+                while j < len(block) - 1:
+                    m = block[j]
+                    mt = m.targets[0] if (isinstance(m, ast.Assign) and len(m.targets) == 1) else (m.target if isinstance(m, ast.AnnAssign) else None)
+                    mv = getattr(m, 'value', None)
+                    if not (isinstance(mt, ast.Name) and mv is not None) or mt.id in val_names or mt.id == t:
+                        break
+                    if any(isinstance(x, ast.Name) and x.id == t for x in ast.walk(mv)):
+                        break
+                    if any(isinstance(x, (ast.Await, ast.Yield, ast.YieldFrom, ast.NamedExpr)) for x in ast.walk(mv)) or \
+                            any(isinstance(x, ast.Call) and dotted(x.func) not in _PURE_BUILTINS for x in ast.walk(mv)):
+                        break
+                    j += 1
+                c = block[j]
+                if not isinstance(c, (ast.Return, ast.Assign, ast.AnnAssign, ast.Expr, ast.AugAssign, ast.Raise, ast.If, ast.For)):
+                    continue
+                if isinstance(c, (ast.If, ast.For)) and any(isinstance(x, ast.Name) and x.id == t for b_ in (c.body, c.orelse) for st_ in b_ for x in ast.walk(st_)):
+                    continue
+                roots = [c.test] if isinstance(c, ast.If) else [c.iter] if isinstance(c, ast.For) else \
+                    [getattr(c, 'value', None)] if not isinstance(c, ast.Raise) else [c.exc]
+                if isinstance(c, (ast.Assign, ast.AugAssign, ast.AnnAssign)):
+                    tg = c.targets if isinstance(c, ast.Assign) else [c.target]
+                    # targets are evaluated after the value for plain assignment; a subscript / attribute target reading t is left alone
+                    if any(isinstance(x, ast.Name) and x.id == t for g_ in tg for x in ast.walk(g_)):
+                        continue
+                    if isinstance(c, ast.AugAssign):
+                        continue
+                root = roots[0]
+                if root is None:
+                    continue
+                order = list(_eval_order(root))
+                use = [x for x in order if isinstance(x, ast.Name) and x.id == t and isinstance(x.ctx, ast.Load)]
+                if len(use) != 1:
+                    continue
+                u = use[0]
+                ui = next(k for k, x in enumerate(order) if x is u)
+                # unconditional position: not under a short-circuit operand, conditional expression arm, comprehension or lambda
+                bad = False
+                for x in ast.walk(root):
+                    inside = any(y is u for y in ast.walk(x))
+                    if not inside or x is u:
+                        continue
+                    if isinstance(x, (ast.Lambda, ast.ListComp, ast.SetComp, ast.DictComp, ast.GeneratorExp)):
+                        first_iter = getattr(x, 'generators', [None])[0]
+                        if not (first_iter is not None and any(y is u for y in ast.walk(first_iter.iter))):
+                            bad = True
+                    if isinstance(x, ast.BoolOp) and not any(y is u for y in ast.walk(x.values[0])):
+                        bad = True
+                    if isinstance(x, ast.IfExp) and not any(y is u for y in ast.walk(x.test)):
+                        bad = True
+                if bad:
+                    continue
+                # nothing with a possible effect completes before the read
+                before = [x for k, x in enumerate(order) if k < ui and isinstance(x, (ast.Call, ast.Subscript, ast.Await))
+                          and not any(y is u for y in ast.walk(x))]
+                if before:
+                    continue
+                sub = _Subst({t: val})
+                if isinstance(c, ast.Raise):
+                    c.exc = sub.visit(c.exc)
+                elif isinstance(c, ast.If):
+                    c.test = sub.visit(c.test)
+                elif isinstance(c, ast.For):
+                    c.iter = sub.visit(c.iter)
+                else:
+                    c.value = sub.visit(c.value)
+                del block[i]
+                loads[t] = 0
+                stores[t] = 0
+                for x in ast.walk(val):
+                    pass
+                count += 1
+                changed = True
+                break
+            if changed:
+                break
+    return count
+
+
+# ----------------------------------------------------------------------------------------
+# P17: a relay accumulator
+#
+#     acc = []                                       for f in fs:
+#     for f in fs:                           ->          …
+#         …                                              work += found
+#         acc += found
+#     work += acc
+#
+# (acc is used for nothing else; the loop neither reads nor writes `work`, so appending piecewise is the same)
+
+def drop_relay_accumulators(fn_node: ast.AST) -> int:
+    count = 0
+    for owner, fld, block in list(_blocks(fn_node)):
+        i = 0
+        while i + 2 < len(block) + 0 and i + 2 <= len(block) - 1:
+            s, lp, tail = block[i], block[i + 1], block[i + 2]
+            acc = None
+            if isinstance(s, ast.Assign) and len(s.targets) == 1 and isinstance(s.targets[0], ast.Name) and _empty_container(s.value) == 'list':
+                acc = s.targets[0].id
+            elif isinstance(s, ast.AnnAssign) and isinstance(s.target, ast.Name) and s.value is not None and _empty_container(s.value) == 'list':
+                acc = s.target.id
+            work = None
+            if isinstance(tail, ast.AugAssign) and isinstance(tail.op, ast.Add) and isinstance(tail.target, ast.Name) \
+                    and isinstance(tail.value, ast.Name):
+                work, src_name = tail.target.id, tail.value.id
+            elif isinstance(tail, ast.Expr) and isinstance(tail.value, ast.Call) and isinstance(tail.value.func, ast.Attribute) \
+                    and tail.value.func.attr == 'extend' and isinstance(tail.value.func.value, ast.Name) and len(tail.value.args) == 1 \
+                    and isinstance(tail.value.args[0], ast.Name):
+                work, src_name = tail.value.func.value.id, tail.value.args[0].id
+            if acc is None or work is None or src_name != acc or not isinstance(lp, ast.For) or lp.orelse or work == acc:
+                i += 1
+                continue
+            # every use of acc: `acc += E` / `acc.extend(E)` / `acc.append(E)` statements inside the loop, plus the tail
+            uses_total = sum(1 for x in walk_local(fn_node) if isinstance(x, ast.Name) and x.id == acc)
+            ok_uses = 2    # the initialisation and the tail
+            good = True
+            for st in ast.walk(lp):
+                if isinstance(st, ast.AugAssign) and isinstance(st.target, ast.Name) and st.target.id == acc and isinstance(st.op, ast.Add) \
+                        and not any(isinstance(x, ast.Name) and x.id == acc for x in ast.walk(st.value)):
+                    ok_uses += 1
+                elif isinstance(st, ast.Expr) and isinstance(st.value, ast.Call) and isinstance(st.value.func, ast.Attribute) \
+                        and st.value.func.attr in ('extend', 'append') and isinstance(st.value.func.value, ast.Name) and st.value.func.value.id == acc \
+                        and not any(isinstance(x, ast.Name) and x.id == acc for a in st.value.args for x in ast.walk(a)):
+                    ok_uses += 1
+            if ok_uses != uses_total:
+                good = False
+            if any(isinstance(x, ast.Name) and x.id == work for x in ast.walk(lp)):
+                good = False
+            if any(isinstance(x, (ast.Break, ast.Return, ast.Raise, ast.Yield, ast.YieldFrom)) for x in ast.walk(lp)):
+                good = False      # leaving the loop early would otherwise have discarded / kept different elements
+            if not good:
+                i += 1
+                continue
+            block[i + 1] = _Rename({acc: work}).visit(lp)
+            del block[i + 2]
+            del block[i]
+            count += 1
+        # next block
+    return count
+
+
+# ----------------------------------------------------------------------------------------
+# P18: f'{f"{a}{b}"}__{c}'  ->  f'{a}{b}__{c}'   (a nested f-string without conversion or format spec is spliced in)
+
+def flatten_nested_fstrings(fn_node: ast.AST) -> int:
+    count = 0
+
+    class F(ast.NodeTransformer):
+        def visit_JoinedStr(self, node: ast.JoinedStr):
+            nonlocal count
+            self.generic_visit(node)
+            out = []
+            for v in node.values:
+                if isinstance(v, ast.FormattedValue) and isinstance(v.value, ast.JoinedStr) and v.conversion == -1 and v.format_spec is None:
+                    out.extend(v.value.values)
+                    count += 1
+                else:
+                    out.append(v)
+            # merge adjacent constants
+            merged = []
+            for v in out:
+                if merged and isinstance(v, ast.Constant) and isinstance(merged[-1], ast.Constant) and isinstance(v.value, str) and isinstance(merged[-1].value, str):
+                    merged[-1] = ast.copy_location(ast.Constant(value=merged[-1].value + v.value), merged[-1])
+                else:
+                    merged.append(v)
+            node.values = merged
+            return node
+    F().visit(fn_node)
+    return count
